@@ -306,6 +306,10 @@ def call_builtin(ex, name, args, kw, star, node):
             return VVal(c.NONE)
         ex.delitem(d, args[1], w)
         return VVal(c.NONE)
+    if name == "defaultdict":
+        t = c.fresh_id("ddict")
+        ex.assume(z3.And(c.is_dict(t), t != c.NONE))
+        return VVal(t)
     if name == "range":
         if len(args) == 1:
             return VRange(z3.IntVal(0), ex.tint(args[0]), 1)
